@@ -295,7 +295,11 @@ Definition C14_ok (tr : otrace) (aborted : bool) : bool :=
                                      | CRecv, Some p => memZ p (m14_dropped m) ||
                                                         (len_pipe p (m14_recvd m) <? len_pipe p (m14_psend m))%nat
                                      | _, _ => false end) (b_cur (m14_b m))) &&
-  (if mb_quiescent (m14_b m) && negb aborted
+  (* nothing can run any more and no notification is unserved: either every command has returned, or the
+     run ended in a deadlock in which the only commands in progress are blocked [recv]s *)
+  (if (match b_exit (m14_b m) with [] => true | _ => false end) && negb (b_notif (m14_b m)) &&
+      (if aborted then forallb (fun tc => match snd tc with CRecv => true | _ => false end) (b_cur (m14_b m))
+       else match b_cur (m14_b m) with [] => true | _ => false end)
    then forallb (fun pq => memZ (snd pq) (on_pipe (fst pq) (m14_fwd m))) (m14_lsdone m) &&
         forallb (fun p => memZ p (m14_term m)) (m14_exited m)
    else true).
